@@ -454,7 +454,11 @@ def _apply(ctx: Ctx, op):
         from inferno.observe import PassthroughReducer, StateMonitor
 
         if unique and pname in e.mons:
-            for hk in [hk for hk in im.held if hk[:3] == (idx, cname, pname)]:
+            # unique=True replaces the entry; the docs do not say that the replaced object is detached, and the
+            # property speaks about registered monitors only: the user does not keep holding a replaced object
+            # (whichever cell it was first obtained through), so nothing is asserted about it
+            old_uid = e.mons[pname].uid
+            for hk in [hk for hk in im.held if hk[3] == old_uid]:
                 del im.held[hk]
             st_["unique_replace"] += 1
         ctor = StateMonitor.partialconstructor(
@@ -885,7 +889,7 @@ LEGS = [
         name="lifecycle",
         run=run_lifecycle,
         strategy=lambda tier: lifecycle_case(tier),
-        quick=300, thorough=2000, quick_shards=8, thorough_shards=16, nt_floor=0.3,
+        quick=300, thorough=1500, quick_shards=8, thorough_shards=16, nt_floor=0.3,
         rule="operation sequence in which, at some point, two cells of one trainer hold the same pooled monitor "
              "object, >= 1 cell/monitor deletion is followed by >= 1 layer step that is recorded (trainer and layer "
              "training) by a surviving monitor, >= 1 train/eval switch of trainer or layer, >= 2 recorded steps; "
